@@ -19,6 +19,8 @@ def effect_of(name, argvals):
         args[0] = 'true' if argvals.get(0) else 'false'
     if name == 'proc_location':
         args[1] = 'true' if argvals.get(1) else 'false'; args[2] = 'true' if argvals.get(2) else 'false'
+    if name == 'expr_simulate':
+        args[1] = 'true' if argvals.get(1) else 'false'
     if name == 'expr_optimize_exp':
         args[1] = 'EXPRPRICE' if argvals.get(1) == 1 else 'TIMEPRICE'
     eff = gen_lr.special(name, args) or gen_lr.EFFECTS.get(name)
@@ -94,6 +96,11 @@ def check(run):
             if rng.random() < 0.7: text = crashgen.mutate_tokens(rng, text)
             srcs[cid] = ('xta', text)
             j.case(cid, fork=True, old=rng.random() < 0.15).trace('xta', text).end()
+        elif r < 0.42:
+            text = rng.choice(crashgen.QUERY)
+            if rng.random() < 0.6: text = crashgen.mutate_tokens(rng, text)
+            srcs[cid] = ('parseProperty (PropertyBuilder)', text)
+            j.case(cid, fork=True).model('xml', base).trace('prop', text).end()
         else:
             part = rng.choice([p for p in PARTS if PARTS[p] != 'query'])
             text = rng.choice(SEEDS[PARTS[part]])
@@ -180,7 +187,7 @@ def check(run):
                    callbacks_observed=ncalls, distinct_callbacks_observed=len(seen), callbacks_in_table=len(gen_lr.EFFECTS), automaton_states=info['states'], grammar_rules=info['rules'],
                    counting_symbols=info['stacks'][gen_lr.F]['counting_symbols'], entry_points=dict(entries), outcomes=dict(outcomes),
                    rule='(A) Coq: check_all on the LR(0) item automaton, rule actions and effect table regenerated from parser.y (bison --xml), for the expression, type and frame stacks. '
-                        '(B) every builder callback of generated and token-mutated inputs (whole XML, whole XTA in both syntaxes, every xta_part_t) is traced with the three stack heights before and after and compared with the effect table. '
+                        '(B) every builder callback of generated and token-mutated inputs (whole XML, whole XTA in both syntaxes, every xta_part_t with DocumentBuilder, queries with PropertyBuilder) is traced with the three stack heights before and after and compared with the effect table. '
                         '(C) ASan+UBSan build: generated, token-, byte- and element-mutated inputs through parse_XML_buffer, parse_XTA, parse_XTA(part) with DocumentBuilder and PrettyPrinter, parseProperty with PrettyPrinter and TigaPropertyBuilder, both syntax switches; '
                         'very long identifiers, numbers and string literals (3999 .. 70000 characters) are spliced in; declarations with struct / array initialiser lists of every length (too few, exact, too many, nested, named) reach the type checker; any signal, sanitizer report, abort, timeout or non-std exception is a failing input')
     run.cov['trusted_base'] += ['LRStack.v machine as a model of the bison skeleton (shift / reduce by any listed rule / recovery to the first state shifting error from a state without default reduction)',
